@@ -48,6 +48,7 @@ import (
 	pl_staticroute "github.com/coredhcp/coredhcp/plugins/staticroute"
 	"github.com/insomniacslk/dhcp/dhcpv4"
 	"github.com/insomniacslk/dhcp/dhcpv6"
+	"github.com/insomniacslk/dhcp/rfc1035label"
 )
 
 func init() { families["plugins"] = runPlugins }
@@ -258,6 +259,8 @@ type pre4abs struct {
 	typ   string
 	yi    bool
 	lease bool
+	// lzero: the lease time that is already set is 0 seconds (set, not absent)
+	lzero bool
 }
 
 func fourWayIP(c string, own net.IP) net.IP {
@@ -327,7 +330,11 @@ func buildPlug4(a req4abs, p pre4abs, own net.IP, r *rand.Rand) (*dhcpv4.DHCPv4,
 		resp.YourIPAddr = net.IPv4(192, 0, 2, 55).To4()
 	}
 	if p.lease {
-		resp.UpdateOption(dhcpv4.OptIPAddressLeaseTime(7777 * time.Second))
+		lt := 7777 * time.Second
+		if p.lzero {
+			lt = 0
+		}
+		resp.UpdateOption(dhcpv4.OptIPAddressLeaseTime(lt))
 	}
 	return req, resp, nil
 }
@@ -464,7 +471,7 @@ func observe4(t *Trace, pl string, args []string, h handler.Handler4, a req4abs,
 		stop bool
 	)
 	pan, slow := callWatch(func() { out, stop = h(req, resp) })
-	obs := Ev{"nil": out == nil, "stop": stop, "panic": pan != nil, "slow": slow, "roundtrip": true, "siaddrok": false, "opts": []Ev{}, "msg": ""}
+	obs := Ev{"nil": out == nil, "stop": stop, "panic": pan != nil, "slow": slow, "roundtrip": true, "decodes": true, "siaddrok": false, "opts": []Ev{}, "msg": ""}
 	if pan != nil {
 		obs["msg"] = fmt.Sprint(pan)
 		obs["nil"] = true
@@ -482,6 +489,10 @@ func observe4(t *Trace, pl string, args []string, h handler.Handler4, a req4abs,
 				obs["msg"] = "reply does not parse: " + err.Error()
 			} else {
 				obs["roundtrip"] = bytes.Equal(back.ToBytes(), wire)
+				if c, why := undecodable4(back); c >= 0 {
+					obs["decodes"] = false
+					obs["msg"] = fmt.Sprintf("option %d of the parsed reply does not decode: %s", c, why)
+				}
 				post := opts4(back)
 				exp := expected4(pl, args)
 				var os_ []Ev
@@ -500,7 +511,52 @@ func observe4(t *Trace, pl string, args []string, h handler.Handler4, a req4abs,
 	}
 	t.Emit(Ev{"ev": "h", "pl": pl, "proto": 4, "cfg": cfg, "args": args,
 		"req": Ev{"prlhas": a.prlhas, "prl": intsOrEmpty(a.prl), "ac": a.ac, "siaddr": a.siaddr, "opt54": a.opt54, "mt": a.mt, "hlen": a.hlen},
-		"pre": Ev{"type": p.typ, "yi": p.yi, "lease": p.lease}, "obs": obs})
+		"pre": Ev{"type": p.typ, "yi": p.yi, "lease": p.lease, "lzero": p.lzero}, "obs": obs})
+}
+
+// undecodable4: the first watched option of a parsed DHCPv4 reply whose bytes are not a value of the option's
+// type (the DHCPv4 codec keeps option bodies as bytes, so a parse of the packet alone does not tell).
+func undecodable4(p *dhcpv4.DHCPv4) (int, string) {
+	for _, c := range watched4 {
+		v, ok := p.Options[uint8(c)]
+		if !ok {
+			continue
+		}
+		bad := ""
+		switch c {
+		case 1, 54, 51, 108:
+			if len(v) != 4 {
+				bad = fmt.Sprintf("%d bytes, want 4", len(v))
+			}
+		case 3, 6:
+			if len(v)%4 != 0 {
+				bad = fmt.Sprintf("%d bytes, want a multiple of 4", len(v))
+			}
+		case 26:
+			if len(v) != 2 {
+				bad = fmt.Sprintf("%d bytes, want 2", len(v))
+			}
+		case 116:
+			if len(v) != 1 {
+				bad = fmt.Sprintf("%d bytes, want 1", len(v))
+			}
+		case 119:
+			if _, err := rfc1035label.FromBytes(v); err != nil {
+				bad = err.Error()
+			}
+		case 121:
+			var rs dhcpv4.Routes
+			if err := rs.FromBytes(v); err != nil {
+				bad = err.Error()
+			} else if !bytes.Equal(rs.ToBytes(), v) {
+				bad = "routes do not re-encode to the same bytes"
+			}
+		}
+		if bad != "" {
+			return c, bad
+		}
+	}
+	return -1, ""
 }
 
 func intsOrEmpty(x []int) []int {
@@ -521,7 +577,7 @@ func observe6(t *Trace, pl string, args []string, h handler.Handler6, a req6abs,
 		stop bool
 	)
 	pan, slow := callWatch(func() { out, stop = h(req, resp) })
-	obs := Ev{"nil": out == nil, "stop": stop, "panic": pan != nil, "slow": slow, "roundtrip": true, "siaddrok": false, "opts": []Ev{}, "msg": ""}
+	obs := Ev{"nil": out == nil, "stop": stop, "panic": pan != nil, "slow": slow, "roundtrip": true, "decodes": true, "siaddrok": false, "opts": []Ev{}, "msg": ""}
 	if pan != nil {
 		obs["msg"] = fmt.Sprint(pan)
 		obs["nil"] = true
@@ -624,7 +680,10 @@ func runPluginOne(t *Trace, pl string, proto int, args []string, reqs string, se
 		for _, ty := range []string{"offer", "ack"} {
 			for _, yi := range []bool{false, true} {
 				for _, le := range []bool{false, true} {
-					pres = append(pres, pre4abs{ty, yi, le})
+					pres = append(pres, pre4abs{ty, yi, le, false})
+				}
+				if pl == "lease_time" {
+					pres = append(pres, pre4abs{ty, yi, true, true})
 				}
 			}
 		}
@@ -737,7 +796,7 @@ func runSidChainOne(t *Trace, other string, proto int, args []string, seed int64
 			return
 		}
 		own := net.ParseIP(sidArgs[0]).To4()
-		pres := []pre4abs{{"offer", false, false}, {"offer", true, false}, {"ack", true, true}, {"ack", false, false}}
+		pres := []pre4abs{{"offer", false, false, false}, {"offer", true, false, false}, {"ack", true, true, false}, {"ack", false, false, false}}
 		bat := []req4abs{
 			{mt: 1, hlen: 6, siaddr: "absent", opt54: "absent"},
 			{mt: 1, hlen: 6, prlhas: true, prl: []int{6, 26, 66, 67, 108}, siaddr: "absent", opt54: "absent"},
@@ -882,6 +941,9 @@ func tableConfigs() []struct {
 		{"mtu", 4, []string{"1500"}}, {"mtu", 4, []string{"576"}}, {"mtu", 4, []string{"65535"}}, {"mtu", 4, []string{"9000"}},
 		{"searchdomains", 4, []string{"example.org"}}, {"searchdomains", 4, []string{"a.example.org", "b.example.net", "c"}},
 		{"searchdomains", 6, []string{"example.org"}}, {"searchdomains", 6, []string{"a.example.org", "corp.example.net"}},
+		{"staticroute", 4, []string{"10.1.130.3/17,10.0.0.1"}}, {"staticroute", 4, []string{"192.168.1.77/26,10.0.0.9", "172.17.0.0/12,10.0.0.1", "10.9.8.7/16,10.0.0.2"}},
+		{"server_id", 4, []string{"::ffff:192.0.2.1"}}, {"server_id", 4, []string{"0:0:0:0:0:ffff:c000:201"}},
+		{"router", 4, []string{"::ffff:10.0.0.1"}}, {"dns", 4, []string{"::ffff:8.8.8.8", "1.1.1.1"}}, {"netmask", 4, []string{"::ffff:255.255.255.0"}},
 		{"staticroute", 4, []string{"10.1.0.0/16,10.0.0.1"}}, {"staticroute", 4, []string{"10.1.0.0/16,10.0.0.1", "0.0.0.0/0,10.0.0.254", "192.168.7.0/25,10.0.0.9"}},
 		{"lease_time", 4, []string{"3600s"}}, {"lease_time", 4, []string{"1h30m"}}, {"lease_time", 4, []string{"45s"}},
 		{"ipv6only", 4, []string{}}, {"ipv6only", 4, []string{"300s"}}, {"ipv6only", 4, []string{"2h"}},
